@@ -101,12 +101,15 @@ PROPS["C03"] = {
 }
 PROPS["C04"] = {
     "lean_module": "LispModel.Props.C04",
-    "engines": [{"name": "malformed", "quick": 400, "thorough": 20000}],
-    "violation_if": {"malformed": r"^(PANIC|HANG)"},
+    "engines": [{"name": "malformed", "quick": 400, "thorough": 20000},
+                {"name": "nopanic", "quick": 2000, "thorough": 100000}],
+    "violation_if": {"malformed": r"^(PANIC|HANG)", "nopanic": r"^(PANIC|HANG)"},
     "technique": "Lean 4 theorems (total evaluator model without panic outcome; every error is catchable) + exhaustive malformed-form enumeration against the real EVAL",
     "level_text": "The evaluator model is a total function whose only outcomes are value / error / out-of-fuel, and every error outcome is caught by "
                   "(try … (catch e …)); that the real EVAL has no further outcome (a Go panic) is checked by enumerating every special-form head and builtin "
-                  "with 0–2 operands of 29 kinds (and sampled 3–4 operands, nested in wrappers), each also wrapped in try/catch, and diffing with the model.",
+                  "with 0–2 operands of 35 kinds (and sampled 3–4 operands, nested in wrappers), each also wrapped in try/catch, and diffing with the model; "
+                  "engine nopanic applies every builtin of the three libraries (also those outside the model: metadata, JSON, base64, errors, time) to 0–2 arguments "
+                  "of 18 kinds (3 sampled), directly and under try/catch, observing only value / error / escaped panic.",
     "level_note": _EVAL_NOTE,
     "assumptions": ["acyclic values; recursion that terminates within the host stack"],
 }
@@ -154,7 +157,8 @@ PROPS["C13"] = {
 PROPS["C18"] = {
     "lean_module": "LispModel.Props.C18",
     "engines": [{"name": "step", "quick": 4000, "thorough": 60000},
-                {"name": "steplong", "quick": 1, "thorough": 1, "deterministic": True}],
+                {"name": "steplong", "quick": 1, "thorough": 1, "deterministic": True},
+                {"name": "stepdbg", "quick": 1, "thorough": 1, "deterministic": True}],
     "technique": "Lean 4 simulation theorem (evaluator with scripted Stepper vs without) + differential correspondence incl. the exact sequence of forms shown to the callback",
     "level_text": "Theorem: for every command script the evaluator model with a Stepper returns the same result, trace and store as without; tie: programs "
                   "with special forms, closures, macros, try/catch/finally under random scripts, compared with the run without Stepper and with the model "
